@@ -69,3 +69,50 @@ def run_waiter(fn, cond, deliver, join_timeout=20.0, enter_timeout=10.0, grace=2
     if t.is_alive():
         return "hung", None
     return box["status"], box["value"]
+
+
+def run_waiters(fns, cond, deliver, join_timeout=20.0, enter_timeout=10.0, grace=2.5):
+    """Several threads block in cond.wait(); deliver once all are parked; every one must come back.
+
+    Returns a list of (status, value) in the order of ``fns``."""
+    import time
+    boxes = [{} for _ in fns]
+
+    def target(fn, box):
+        try:
+            box["value"] = fn()
+            box["status"] = "returned"
+        except BaseException as exc:  # noqa: BLE001
+            box["value"] = exc
+            box["status"] = "raised"
+    n0 = cond.waits
+    threads = [threading.Thread(target=target, args=(fn, box), daemon=True) for fn, box in zip(fns, boxes)]
+    for t in threads:
+        t.start()
+    end = time.time() + enter_timeout
+    while cond.waits < n0 + len(fns) and time.time() < end:
+        time.sleep(0.0005)
+    if cond.waits < n0 + len(fns):
+        return [("never-waited", None)] * len(fns)
+    with cond:      # all waiters have released the lock inside wait()
+        pass
+    n1 = cond.waits
+    deliver()
+    out = []
+    deadline = time.time() + grace
+    for t in threads:
+        t.join(max(0.0, deadline - time.time()))
+    stuck = [t for t in threads if t.is_alive()]
+    if stuck and cond.waits == n1:
+        with cond:
+            cond.notify_all()
+    for t, box in zip(threads, boxes):
+        was_stuck = t in stuck
+        t.join(join_timeout)
+        if t.is_alive():
+            out.append(("hung", None))
+        elif was_stuck and cond.waits == n1:
+            out.append(("not-woken", box.get("value")))
+        else:
+            out.append((box["status"], box["value"]))
+    return out
